@@ -3,6 +3,7 @@ import Utv.Lemmas.C13Json
 import Utv.Lemmas.C13Wf
 import Utv.Lemmas.C13Val
 import Utv.Lemmas.C13Alias
+import Utv.Lemmas.C13Defs
 /-!
 C13 — the generated JSON Schema is valid and describes what the parser does.
 
@@ -320,7 +321,7 @@ theorem C13_mode_param_partial (cfg : Cfg) (c : ClassMeta) (fs : List Fld) (a : 
     | some m =>
       simp [hm] at h
       cases c with
-      | mk n o => cases o; simp_all
+      | mk n o u => cases o; simp_all
   rw [ho]
   exact ⟨C13_properties_iff_accepted _ c fs a, C13_required_iff_absence_error _ c fs a⟩
 
@@ -330,7 +331,7 @@ def witnessField : FieldMeta :=
     description := none, deprecated := false, exampleV := none }
 
 def witnessClass : ClassMeta :=
-  ⟨"W1", { mode := none, addition := .drop, ignoreRequired := false, noDefault := false, deferDefault := false }⟩
+  { name := "W1", opts := { mode := none, addition := .drop, ignoreRequired := false, noDefault := false, deferDefault := false } }
 
 /-- a write-only field of a mode-less class: asked for mode `r`, the generator still lists and requires it -/
 theorem C13_mode_param_ignored_witness :
@@ -359,6 +360,13 @@ theorem wf_gen (cfg : Cfg) : (t : Ty) → wfTy t = true → wfKws (gen cfg t) = 
     rw [gen.eq_def]
     simp only [wfKws_append, wf_ruleHead, Bool.true_and]
     exact wf_scalar_cons p m cs h.1 h.2
+  | .derived p m cs0 _ cs, h => by
+    rw [wfTy.eq_def] at h
+    simp only [Bool.and_eq_true] at h
+    rw [gen.eq_def]
+    simp only [wfKws_append, wf_ruleHead, Bool.true_and]
+    rw [wf_scalar_cons p m cs0 h.1.1.1 h.1.2, wf_scalar_cons p m cs h.1.1.2 h.1.2]
+    rfl
   | .seq p m cs item, h => by
     rw [wfTy.eq_def] at h
     simp only [Bool.and_eq_true] at h
@@ -464,6 +472,16 @@ theorem val_gen : (t : Ty) → (r : PV) → wfTy t = true → conforms R t r = t
     simp only [validateKws_append]
     rw [val_ruleHead C all p m _ hw.2 (typeIs_plain p r hc.1 hs),
       val_scalar_cons C R L hC all p m cs r hw.1 hw.2 hc.1 hs hc.2]
+    rfl
+  | .derived p m cs0 _ cs, r, hw, hc, hs, _, all, _ => by
+    rw [wfTy.eq_def] at hw
+    rw [conforms.eq_def] at hc
+    simp only [Bool.and_eq_true] at hw hc
+    rw [gen.eq_def]
+    simp only [validateKws_append]
+    rw [val_ruleHead C all p m _ hw.1.2 (typeIs_plain p r hc.1.1 hs),
+      val_scalar_cons C R L hC all p m cs0 r hw.1.1.1 hw.1.2 hc.1.1 hs hc.1.2,
+      val_scalar_cons C R L hC all p m cs r hw.1.1.2 hw.1.2 hc.1.1 hs hc.2]
     rfl
   | .seq p m cs item, r, hw, hc, hs, h1, all, _ => by
     rw [wfTy.eq_def] at hw
@@ -838,8 +856,8 @@ theorem C13_unsafe_decimal_witness :
       validate Ctx.top (generate ⟨true, none⟩ t) (encode r) = false :=
   ⟨.plain .decimal, .dec ⟨100000000000000000000, 0⟩ "1E+20", by decide, by decide, by decide, by decide⟩
 
-def lowerStr : Ty := .scalar .str ⟨none, none⟩ [("regex", .str "[a-z]+")]
-def len2Str : Ty := .scalar .str ⟨none, none⟩ [("length", .num ⟨2, 0⟩)]
+def lowerStr : Ty := .scalar .str { primitive := none, format := none } [("regex", .str "[a-z]+")]
+def len2Str : Ty := .scalar .str { primitive := none, format := none } [("length", .num ⟨2, 0⟩)]
 
 /-- known finding `oneof-weaker-branch`: `(A ^ B)("abc")` with `A = str(regex='[a-z]+')`, `B = str(length=2)`
 returns "abc" (only `A`'s parser accepts), but `B`'s schema `{"type": "string", "length": 2}` has no assertion for
@@ -850,10 +868,10 @@ theorem C13_oneof_overlap_witness :
   ⟨.logic .oneOf [lowerStr, len2Str], .str "abc", by decide, by decide, by decide, by decide⟩
 
 def sampleClass : Ty :=
-  .data ⟨"S", { mode := some 'r', addition := .reject, ignoreRequired := false, noDefault := false, deferDefault := false }⟩
-    [.mk { witnessField with mode := none, required := .always } (.scalar .int ⟨none, none⟩ [("gt", .num ⟨0, 0⟩)]),
+  .data { name := "S", opts := { mode := some 'r', addition := .reject, ignoreRequired := false, noDefault := false, deferDefault := false } }
+    [.mk { witnessField with mode := none, required := .always } (.scalar .int { primitive := none, format := none } [("gt", .num ⟨0, 0⟩)]),
      .mk { witnessField with name := "b", attname := "b", mode := none, required := .never, hasDefault := true }
-        (.seq .list ⟨none, none⟩ [("max_length", .num ⟨2, 0⟩)] (.logic .anyOf [.plain .str, .plain .null]))]
+        (.seq .list { primitive := none, format := none } [("max_length", .num ⟨2, 0⟩)] (.logic .anyOf [.plain .str, .plain .null]))]
     .any
 
 def sampleValue : PV := .inst [("a", .int 3), ("b", .list [.str "x", .none])]
@@ -866,6 +884,72 @@ example : wfTy sampleClass = true ∧ conforms Rx.top sampleClass sampleValue = 
 
 /-- … and the document is not trivially permissive: it rejects a value that breaks the field's constraint -/
 example : validate Ctx.top (generate ⟨true, none⟩ sampleClass) (encode (.inst [("a", .int 0), ("b", .list [])])) = false := by
+  decide
+
+/-! ## Part 4 — `$defs` mode: the shared registry (`defs=` / `names=`) over arbitrary call histories
+
+`genD` (Model/C13Defs.lean) mirrors the registry-dependent branches of the generator and is compared document by
+document with the real generator on multi-step sessions.  What is proved here is the registry discipline those
+branches rely on: names identify types, registered names never change, and the reference a data class returns
+resolves — in the document assembled from the registry — to the schema generated for that very class. -/
+
+theorem entry_eq_of_name {reg : Reg} (hn : (reg.map (·.name)).Nodup) {e e' : Entry} (he : e ∈ reg) (he' : e' ∈ reg)
+    (h : e.name = e'.name) : e = e' := by
+  induction reg with
+  | nil => cases he
+  | cons x rest ih =>
+    simp only [List.map_cons, List.nodup_cons] at hn
+    rcases List.mem_cons.mp he with h1 | h1
+    · rcases List.mem_cons.mp he' with h2 | h2
+      · rw [h1, h2]
+      · exact absurd (by rw [← h1, h]; exact List.mem_map_of_mem h2) hn.1
+    · rcases List.mem_cons.mp he' with h2 | h2
+      · exact absurd (by rw [← h2, ← h]; exact List.mem_map_of_mem h1) hn.1
+      · exact ih hn.2 h1 h2
+
+/-- a name of the registry belongs to one type only -/
+theorem C13_defs_names_injective (reg : Reg) (hok : RegOk reg) (u u' : Nat) (n : String)
+    (h : reg.nameOf u = some n) (h' : reg.nameOf u' = some n) : u = u' := by
+  obtain ⟨e, he, hu, hn⟩ := nameOf_some_mem h
+  obtain ⟨e', he', hu', hn'⟩ := nameOf_some_mem h'
+  have := entry_eq_of_name hok.2 he he' (by rw [hn, hn'])
+  rw [← hu, ← hu', this]
+
+/-- whatever sequence of `set_def` calls is made (any names, any types, reservations and fills in any order):
+identities and names stay pairwise distinct, and a registered name is never changed -/
+theorem C13_defs_history_invariant (reg : Reg) (hok : RegOk reg) (ops : List DefOp) :
+    RegOk (runOps reg ops) ∧ ∀ u n, reg.nameOf u = some n → (runOps reg ops).nameOf u = some n :=
+  ⟨runOps_ok reg ops hok, fun u n h => runOps_stable reg ops u n h⟩
+
+/-- the protocol of `generate_for_dataclass` (generator.py:299-304, 351-353): reserve a name for the class, generate
+whatever the fields need (any history of registrations), fill the reservation under *the name the reservation
+returned*.  Then the returned reference is the class's registered (de-duplicated) name, it resolves in `$defs` to
+the schema just generated for this class, and no other type's name moved. -/
+theorem C13_defs_ref_resolves (reg0 : Reg) (hok : RegOk reg0) (cls : String) (uid : Nat) (n : String)
+    (hnone : reg0.nameOf uid = none) (hf : freeName reg0 cls = some n) (ops : List DefOp) (data : Obj) :
+    let reserved := setDef reg0 cls uid none
+    let fin := setDef (runOps reserved.2 ops) reserved.1 uid (some data)
+    fin.1 = n ∧ fin.2.nameOf uid = some n ∧ lookup fin.1 (getDefs fin.2) = some (.obj data) ∧ RegOk fin.2 ∧
+      ∀ u m, reg0.nameOf u = some m → fin.2.nameOf u = some m := by
+  intro reserved fin
+  have hres := setDef_fresh reg0 cls uid none n hnone hf
+  have hokR : RegOk reserved.2 := setDef_ok reg0 cls uid none hok
+  have hokK : RegOk (runOps reserved.2 ops) := runOps_ok _ ops hokR
+  have hK : (runOps reserved.2 ops).nameOf uid = some n := runOps_stable _ ops uid n hres.2
+  have hfin := setDef_registered (runOps reserved.2 ops) reserved.1 uid data n hK
+  have h1 : fin.1 = n := by show (setDef _ _ _ _).1 = n; rw [hfin.1]; exact hres.1
+  have h2 : fin.2 = (runOps reserved.2 ops).fill uid data := hfin.2
+  refine ⟨h1, ?_, ?_, ?_, ?_⟩
+  · rw [h2, nameOf_fill]; exact hK
+  · rw [h1, h2]; exact lookup_getDefs_fill _ uid data n hokK hK
+  · rw [h2]; exact ⟨by simp only [fill_uids]; exact hokK.1, by simp only [fill_names]; exact hokK.2⟩
+  · intro u m hm
+    rw [h2, nameOf_fill]
+    exact runOps_stable _ ops u m (setDef_stable reg0 cls uid none u m hm)
+
+/-- the hypotheses are satisfiable with a name clash: a second class that asks for a taken name is stored and
+referred to under the de-duplicated one -/
+example : freeName [⟨1, "User_w", some []⟩] "User_w" = some "User_w_1" ∧ Reg.nameOf [⟨1, "User_w", some []⟩] 2 = none := by
   decide
 
 end Utv.C13
